@@ -113,6 +113,28 @@ public:
     return f.compare(0, Root.size(), Root) == 0;
   }
 
+  SourceLocation patLoc(const CXXRecordDecl* R) const {
+    if (const auto* Sp = dyn_cast<ClassTemplateSpecializationDecl>(R)) {
+      auto From = Sp->getSpecializedTemplateOrPartial();
+      if (From.is<ClassTemplatePartialSpecializationDecl*>())
+        return From.get<ClassTemplatePartialSpecializationDecl*>()->getLocation();
+      if (Sp->getSpecializationKind() != TSK_ExplicitSpecialization)
+        return Sp->getSpecializedTemplate()->getTemplatedDecl()->getLocation();
+    }
+    return R->getLocation();
+  }
+  SourceLocation patLoc(const VarDecl* V) const {
+    if (const auto* Sp = dyn_cast<VarTemplateSpecializationDecl>(V)) {
+      if (Sp->getSpecializationKind() != TSK_ExplicitSpecialization) {
+        auto From = Sp->getSpecializedTemplateOrPartial();
+        if (From.is<VarTemplatePartialSpecializationDecl*>())
+          return From.get<VarTemplatePartialSpecializationDecl*>()->getLocation();
+        return Sp->getSpecializedTemplate()->getLocation();
+      }
+    }
+    return V->getLocation();
+  }
+
   std::map<std::string, int> typeIdx;
   std::vector<std::string> types;
   int T(QualType Q) {
@@ -233,6 +255,16 @@ public:
 
     json::Object o;
     o["t"] = T(X->getType());
+    if (X->isPRValue() && !X->isValueDependent() && !X->containsErrors() &&
+        (X->getType()->isIntegralOrEnumerationType()) && !isa<IntegerLiteral>(X) &&
+        !isa<CXXBoolLiteralExpr>(X)) {
+      Expr::EvalResult R;
+      if (X->EvaluateAsInt(R, Ctx, Expr::SE_NoSideEffects)) {
+        llvm::SmallString<32> s;
+        R.Val.getInt().toString(s, 10);
+        o["cv"] = s.str().str();
+      }
+    }
 
     if (const auto* L = dyn_cast<FloatingLiteral>(X)) {
       o["k"] = "flit";
@@ -738,6 +770,7 @@ public:
       }
       o["inits"] = std::move(in);
     }
+    o["def_loc"] = locStr(F->getBody()->getBeginLoc());
     o["body"] = stmt(F->getBody());
     return std::move(o);
   }
@@ -747,7 +780,7 @@ public:
     json::Object o;
     o["name"] = Ctx.getRecordType(R).getCanonicalType().getAsString(PP);
     o["t"] = T(Ctx.getRecordType(R));
-    o["loc"] = locStr(R->getLocation());
+    o["loc"] = locStr(patLoc(R));
     if (const auto* Sp = dyn_cast<ClassTemplateSpecializationDecl>(R)) {
       o["template"] = Sp->getSpecializedTemplate()->getQualifiedNameAsString();
       o["targs"] = argList(&Sp->getTemplateArgs());
@@ -781,7 +814,13 @@ public:
       if (L) f["offset_bits"] = (int64_t)L->getFieldOffset(idx);
       f["size_bits"] = (int64_t)Ctx.getTypeSize(FD->getType());
       if (FD->isMutable()) f["mutable"] = true;
-      if (FD->hasInClassInitializer()) f["nsdmi"] = true;
+      if (FD->hasInClassInitializer()) {
+        f["nsdmi"] = true;
+        if (const Expr* IE = FD->getInClassInitializer()) {
+          localId.clear();
+          f["init"] = expr(IE);
+        }
+      }
       fs.push_back(std::move(f));
       ++idx;
     }
@@ -831,7 +870,7 @@ public:
     o["id"] = id;
     o["name"] = qualName(V);
     o["qname"] = V->getQualifiedNameAsString();
-    o["loc"] = locStr(V->getLocation());
+    o["loc"] = locStr(patLoc(V));
     o["t"] = T(V->getType());
     if (const auto* Sp = dyn_cast<VarTemplateSpecializationDecl>(V)) {
       o["template"] = Sp->getSpecializedTemplate()->getQualifiedNameAsString();
@@ -856,10 +895,10 @@ public:
     o["constexpr"] = V->isConstexpr();
     o["static_member"] = V->isStaticDataMember();
     o["is_definition"] = V->isThisDeclarationADefinition() == VarDecl::Definition;
-    o["under_root"] = underRoot(V->getLocation());
+    o["under_root"] = underRoot(patLoc(V));
     if (V->hasInit() && !V->getType()->isDependentType() && !V->getInit()->isValueDependent()) {
       o["constant_init"] = V->hasConstantInitialization();
-      if (underRoot(V->getLocation())) o["init"] = expr(V->getInit());
+      if (underRoot(patLoc(V))) o["init"] = expr(V->getInit());
     } else {
       o["constant_init"] = nullptr;
     }
@@ -885,7 +924,7 @@ public:
     if (!R->isThisDeclarationADefinition() || !R->isCompleteDefinition()) return true;
     if (R->isDependentContext() || R->getDescribedClassTemplate()) return true;
     if (isa<ClassTemplatePartialSpecializationDecl>(R)) return true;
-    if (!X.underRoot(R->getLocation())) return true;
+    if (!X.underRoot(X.patLoc(R))) return true;
     if (R->isLambda()) return true;
     recs.push_back(R);
     return true;
@@ -901,7 +940,7 @@ public:
     if (V->isThisDeclarationADefinition() != VarDecl::Definition) return true;
     if (V->getDescribedVarTemplate() || isa<VarTemplatePartialSpecializationDecl>(V)) return true;
     if (V->getDeclContext()->isDependentContext()) return true;
-    if (!X.underRoot(V->getLocation())) return true;
+    if (!X.underRoot(X.patLoc(V))) return true;
     X.VAR(V);
     return true;
   }
